@@ -307,7 +307,13 @@ def r05_5(ctx):
     ctx.check(ok, "Stage.add_objective accumulates with +", detail="earlier terms lost or term rescaled", expected="self._objective = self._objective + term", found="; ".join(ast.unparse(a) for a in asg), fi=f)
     g = prog.own_method("Stage", "objective")
     rets = [ast.unparse(r.value) for r in walk_no_nested(g.node) if isinstance(r, ast.Return)]
-    ctx.check(rets == ["self._objective"], "Stage.objective exposes the accumulated objective", detail="objective accessor", expected="self._objective", found=rets, fi=g)
+    own = [r for r in rets if "self._objective" in r]
+    ctx.check(len(rets) == 1 and len(own) == 1, "Stage.objective exposes the accumulated objective", detail="objective accessor", expected="self._objective (+ the sub-stages' objectives)", found=rets, fi=g)
+    # the solver minimises the sum over the whole stage tree (each stage's add_objective lands in the one Opti, R05.4);
+    # the accessor that sol.value(ocp.objective) evaluates must cover the same terms
+    subs = any("_stages" in ast.unparse(x) for x in ast.walk(g.node))
+    ctx.check(subs, "Stage.objective", detail="sub-stage objectives not included: sol.value(ocp.objective) of a multi-stage OCP is not the minimised cost",
+              expected="own terms plus the objectives of all sub-stages", found="; ".join(rets), fi=g, sample={"accessor": rets})
     check_integral_handler(ctx)
     # a term added after a solve must reach the next solve (else sol.value(objective) is not the minimised cost)
     from ..paths import must_on_all_paths
